@@ -13,9 +13,8 @@ mk("MCGates_p5t", 5, 3, 2, "Cases5T")
 mk("MCGates_p7t", 7, 5, 3, "Cases7T")
 mk("MCGates_p13t", 13, 5, 2, "Cases13T")
 mk("MCGates_p17t", 17, 3, 3, "Cases17T")
-mk("MCGates_deg", 17, 3, 3, "CasesDeg", invs=("DegreeInv","DegreeExactInv"), init="InitDeg", nxt="NextDeg")
+mk("MCGates_degcat", 17, 3, 3, "CasesDeg", invs=("DegreeInv","DegreeExactInv","CatLayoutInv","Emit"), init="InitDegCat", nxt="NextDeg")
 mk("MCGates_canary_DegreeLowered", 17, 3, 3, "CasesDegCanary", invs=("DegreeInv",), init="InitDeg", nxt="NextDeg", degshift=1)
-mk("MCGates_cat", 17, 3, 3, "CasesDeg", invs=("CatLayoutInv", "Emit"), init="InitCat", nxt="NextDeg")
 # spec mutants: (name, P, A, G, cases, kind, idx)
 for nm, P, A, G, cases, dk, di in [
     ("ExpoLastIntermediate", 5, 3, 2, "CasesExpo", "expo", 3),
